@@ -8,9 +8,9 @@ from harness.common import Ck, coq_Z_list, coq_list
 from translate import c08_sites
 
 MANIFEST = dict(
-    technique='Rocq proof (allocator refinement to a finite set, lifecycle NoDup invariants by induction over histories of several maps incl. copy/parse/collapse, nested Entity/Solid/Side world with bundled events incl. collapse_one, nav-node ID lifecycle in one and several maps, fixup indexes over whole histories) + ast site censuses with semantic normalisation + vm_compute correspondences',
-    text='Theorems in Props/C08.v: the IDMan scan terminates and returns a positive unused ID keeping the search_pos invariant; from every invariant state IDMan is observationally equal to a plain finite set that hands out the desired ID if positive and free, else the least free positive ID (search_pos is unobservable); for every history over any number of maps of construction with arbitrary desired IDs, copy() within and across maps, removal, re-adding, destruction, VMF.parse of documents with colliding/missing/non-positive IDs and collapse_one, the existing objects of one kind that belong to one map have pairwise distinct positive IDs, provided IDs are released only by destructors and every copy site passes the destination map down; the same for entities, their brushes and the faces of those as ONE world whose events are the bundles of constructor/copy/remove/destructor calls made for a top-level object and its parts (order and desired IDs of the nested calls are part of the model); nav-node IDs held by existing entities are distinct and positive after every history of key set/delete/copy/remove/re-add/destroy provided remove_ent does not release them and copies register their node ID, in one map and over several maps incl. cross-map copies, IDs reserved by Instance.fixup_key and collapse_one of node entities (copy all, then reserve and reassign every copied node ID); replaceNN indexes of one entity are distinct and positive after the constructor on any list and every sequence of set/setdefault/update, del/pop, clear, rebuild by Entity.copy and copy/deepcopy/pickle. The premises (release sites, ID stores, map argument of every constructor/copy call inside copy() methods and collapse_one, every write into Entity._keys and into the fixup index table, node-ID shapes, fixup acceptance test / deferral / start index, hint guard) are regenerated from the source on every run by a fail-closed translator that normalises names, test spellings, branch order, single-use locals, helper functions and loop forms, and are kernel-checked; IDMan, EntityFixup histories, the entity lifecycle, three-map histories of entities/brushes/faces/brush groups/visgroups (per kind and as bundled events), node-ID histories in one map and over three maps (with the real collapse_one) and VMF.parse results are compared with the models on random inputs (exact IDs); histories over all ID kinds including collapse_one are searched on real VMF objects.',
-    note='Trusted: Coq kernel + vm_compute, translate/c08_sites.py, c08_keys.py, c08_norm.py (which call sites matter: copy() methods of the five ID classes and collapse_one; other functions that build objects from a foreign map are not in the census), hand models SM/IdMan.v, SM/IdLife.v, SM/IdFixupHist.v, SM/IdWorld.v, SM/IdNest.v, SM/IdNode.v, SM/IdNodeMaps.v (tied by differential runs), CPython refcount/gc for __del__ timing. Brush groups and visgroups are independent single-kind models (each class uses the manager of its kind: census obligation); their IDs are never released (no destructor: leak, modelled as such). collapse_one is an event of the nested model (which brushes and entities it copies, in which order, is computed by the model and compared with the real function; hidden objects, visgroup handling and the keyvalue rewriting are searched, not modelled). Node IDs reserved by Instance.fixup_key are never released (a leak; modelled as the events NReserve / MReserve and compared). In the several-maps node model a nodeid key is a node ID for the entity classes whose FGD type says so (the correspondence sets it on info_node only). The deprecated Entity.keys dict (returned by reference) and a table handed to EntityFixup.__setstate__ bypass the censuses (listed as exposures). Maps opened with preserve_ids=True are exempt by definition.',
+    technique='Rocq proof (allocator refinement to a finite set, lifecycle NoDup invariants by induction over histories of several maps incl. copy/parse/collapse, nested Entity/Solid/Side world with bundled events incl. collapse_one and VMF.parse as a program read from the source, nav-node ID lifecycle in one and several maps, fixup indexes over whole histories) + ast site censuses with semantic normalisation + vm_compute correspondences',
+    text='Theorems in Props/C08.v: the IDMan scan terminates and returns a positive unused ID keeping the search_pos invariant; from every invariant state IDMan is observationally equal to a plain finite set that hands out the desired ID if positive and free, else the least free positive ID (search_pos is unobservable); for every history over any number of maps of construction with arbitrary desired IDs, copy() within and across maps, removal, re-adding, destruction, VMF.parse of documents with colliding/missing/non-positive IDs and collapse_one, the existing objects of one kind that belong to one map have pairwise distinct positive IDs, provided IDs are released only by destructors and every copy site passes the destination map down; the same for entities, their brushes and the faces of those as ONE world whose events are the bundles of constructor/copy/remove/destructor calls made for a top-level object and its parts (order and desired IDs of the nested calls are part of the model), VMF.parse of any document being one such event: the steps of VMF.parse that touch these IDs (placeholder worldspawn of the constructor, world block, re-binding of map.spawn = the moment the destructor of the placeholder runs under CPython reference counting, entity blocks) are read off its body on every run and interpreted by the model, and the theorem holds for every such program that contains no explicit release -- so parse-then-allocate histories are covered, and a parse that hands the ID of the placeholder back itself is refuted by a computed witness (entity IDs 1, 1); nav-node IDs held by existing entities are distinct and positive after every history of key set/delete/copy/remove/re-add/destroy provided remove_ent does not release them and copies register their node ID, in one map and over several maps incl. cross-map copies, IDs reserved by Instance.fixup_key and collapse_one of node entities (copy all, then reserve and reassign every copied node ID); replaceNN indexes of one entity are distinct and positive after the constructor on any list and every sequence of set/setdefault/update, del/pop, clear, rebuild by Entity.copy and copy/deepcopy/pickle. The premises (release sites, ID stores, map argument of every constructor/copy call inside copy() methods and collapse_one, every write into Entity._keys and into the fixup index table, node-ID shapes, fixup acceptance test / deferral / start index, hint guard, the program of VMF.parse, the map argument of every constructor call in helpers such as make_prism, the manager class chosen when preserve_ids is false) are regenerated from the source on every run by a fail-closed translator that normalises names, test spellings, branch order, single-use locals, helper functions and loop forms, and are kernel-checked; IDMan, EntityFixup histories, the entity lifecycle, three-map histories of entities/brushes/faces/brush groups/visgroups (per kind and as bundled events), node-ID histories in one map and over three maps (with the real collapse_one) and VMF.parse results are compared with the models on random inputs (exact IDs); histories over all ID kinds including collapse_one (visgroup False / True / a VisGroup), make_prism / make_hollow and maps that start as parsed documents (world id 1, small colliding IDs) are searched on real VMF objects, the worldspawn included in every entity scan, with a full gc.collect() at every step boundary.',
+    note='Trusted: Coq kernel + vm_compute, translate/c08_sites.py, c08_keys.py, c08_norm.py (which call sites matter: copy() methods of the five ID classes and collapse_one; other functions that build objects from a foreign map are not in the census), hand models SM/IdMan.v, SM/IdLife.v, SM/IdFixupHist.v, SM/IdWorld.v, SM/IdNest.v, SM/IdNode.v, SM/IdNodeMaps.v (tied by differential runs), CPython refcount/gc for __del__ timing (observed, not assumed, for the placeholder worldspawn of VMF.parse: weak references record at which constructor call it is gone; a full collection runs at every step boundary of the histories). Brush groups and visgroups are independent single-kind models (each class uses the manager of its kind: census obligation); their IDs are never released (no destructor: leak, modelled as such). collapse_one is an event of the nested model (which brushes and entities it copies, in which order, is computed by the model and compared with the real function; hidden objects, visgroup handling and the keyvalue rewriting are searched, not modelled). Node IDs reserved by Instance.fixup_key are never released (a leak; modelled as the events NReserve / MReserve and compared). In the several-maps node model a nodeid key is a node ID for the entity classes whose FGD type says so (the correspondence sets it on info_node only). The deprecated Entity.keys dict (returned by reference) and a table handed to EntityFixup.__setstate__ bypass the censuses (listed as exposures). Maps opened with preserve_ids=True are exempt by definition: they use NullIDMan, which hands desired IDs out without looking; C08 assumes NullIDMan is used for nothing else, and the census obligation maps_get_idman_unless_preserve_ids checks that VMF.__init__ gives all six managers the class IDMan when preserve_ids is false, that it defaults to False in VMF.__init__ and VMF.parse and that parse hands its parameter on. A stage in which the implementation loops or raises ends as a VIOLATION with the stage and seed as replay (alarm timer around every stage).',
 )
 
 IMPORTS = ['SV.SM.IdMan', 'SV.SM.IdManSpec', 'SV.SM.IdLife', 'SV.SM.IdFixupHist', 'SV.SM.IdWorld', 'SV.SM.IdNest', 'SV.SM.IdNode', 'SV.SM.IdNodeMaps', 'SV.Gen.IdSites_gen', 'SV.Props.C08',
@@ -142,7 +142,7 @@ def corr_idman(ck: Ck) -> None:
         part = cases[lo:lo + 500]
         lit = coq_list(f'(({coq_Z_list(ex)}, {coq_list(coq_op(o) for o in ops)}), {coq_Z_list(exp)})' for ops, exp, ex in part)
         exprs.append(f'bad_idx (fun c : (list Z * list op) * list Z => zl_eqb (run_res idman_lower_guard (init_from (fst (fst c))) (snd (fst c))) (snd c)) 0 {lit}')
-    res = eval_bad(ck, 'idman', PRE, exprs, per_call=12)
+    res = yield ('idman', PRE, exprs, 12)
     if res is None:
         ck.obligation('correspondence:idman', False, 'model could not be evaluated')
         ck.tie_broken.append('correspondence IDMan: model evaluation failed')
@@ -274,7 +274,7 @@ Fixpoint pl_eqb (a b : list (Z * Z)) : bool := match a, b with [], [] => true | 
         part = cases[lo:lo + 500]
         lit = coq_list(f'(({pairs(i)}, {coq_list(cop(o, v) for o, v in ops)}), {pairs(g)})' for i, ops, g in part)
         exprs.append(f'bad_idx (fun c : (list (Z * Z) * list fxop) * list (Z * Z) => pl_eqb (fx_run {rp} (fst c)) (snd c)) 0 {lit}')
-    res = eval_bad(ck, 'fixup', pre, exprs, per_call=12)
+    res = yield ('fixup', pre, exprs, 12)
     if res is None:
         ck.obligation('correspondence:fixup', False, 'model could not be evaluated')
         ck.tie_broken.append('correspondence EntityFixup: model evaluation failed')
@@ -293,12 +293,29 @@ Fixpoint pl_eqb (a b : list (Z * Z)) : bool := match a, b with [], [] => true | 
 KINDS = ['ent', 'solid', 'group', 'vis']
 
 
+def gc_begin() -> None:
+    """Destructor timing is part of the oracle: a FULL collection runs at every step boundary of a history, so an object
+    that is only kept alive by a reference cycle releases its ID at a defined time (objects freed by reference counting
+    release theirs at once).  To keep full collections cheap, everything that exists when a history starts is moved to
+    the permanent generation first; `gc_end` undoes that."""
+    gc.collect()
+    gc.freeze()
+
+
+def gc_step() -> None:
+    gc.collect()
+
+
+def gc_end() -> None:
+    gc.unfreeze()
+
+
 def scan_map(vmf) -> dict[str, list[int]]:
     """All IDs of objects reachable from the map, per kind."""
     ents = [vmf.spawn, *vmf.entities]
     solids = list(vmf.brushes) + [s for e in vmf.entities for s in e.solids]
     out = {
-        'ent': [e.id for e in vmf.entities],
+        'ent': [e.id for e in ents],       # the worldspawn is an entity too: its "id" is exported next to the others
         'solid': [s.id for s in solids],
         'face': [f.id for s in solids for f in s.sides],
         'group': [g.id for g in vmf.groups.values()],
@@ -337,8 +354,17 @@ def run_history(hist: list[tuple], record_release=None):
     """Execute a lifecycle history on a real VMF. Returns (list of per-step id scans, objects, effective events)."""
     from srctools.vmf import VMF, Entity, Solid, Side, EntityGroup, VisGroup
     from srctools.math import Vec
-    vmf = VMF()
-    vmf2 = VMF()        # destination of cross-map copies
+    from srctools.keyvalues import Keyvalues
+    # ('parse', 0|1, text): the map starts as VMF.parse(text) instead of VMF() -- whatever the position of the event in the list
+    texts = {ev[1]: ev[2] for ev in hist if ev[0] == 'parse'}
+    steps = []
+    gc_begin()
+    try:
+        vmf = VMF.parse(Keyvalues.parse(texts[0])) if 0 in texts else VMF()
+        vmf2 = VMF.parse(Keyvalues.parse(texts[1])) if 1 in texts else VMF()        # destination of cross-map copies
+    except Exception as e:
+        return [{'error': f'VMF.parse: {type(e).__name__}: {e}'}], [], None
+    gc_step()
     for _ in range(3):  # pre-populate so that ID ranges of the two maps overlap
         vmf2.add_brush(vmf2.make_prism(Vec(0, 0, 0), Vec(8, 8, 8)).solid)
         vmf2.create_ent('info_target')
@@ -347,11 +373,17 @@ def run_history(hist: list[tuple], record_release=None):
         vmf2.groups[g2.id] = g2
         vmf2.vis_tree.append(VisGroup(vmf2, 'own'))
     objs: list = []     # [kind, obj or None, in_map]
-    steps = []
     for ev in hist:
         op = ev[0]
         try:
-            if op == 'create':
+            if op == 'parse':
+                if ev[1] == 0:      # the parsed objects of the first map take part in the history like created ones
+                    for b in vmf.brushes:
+                        objs.append(['solid', b, True])
+                    for e in vmf.entities:
+                        objs.append(['node' if e['classname'] == 'info_node' else 'brushent' if e.solids else 'ent', e, True])
+                    b = e = None
+            elif op == 'create':
                 _, kind, desired = ev
                 if kind == 'ent':
                     o = Entity(vmf, {'classname': 'info_target'}, ent_id=desired)
@@ -364,6 +396,18 @@ def run_history(hist: list[tuple], record_release=None):
                                                            for k, s in enumerate(pr.solid.sides)])
                     del pr
                     vmf.add_brush(o)
+                elif kind == 'prism':       # the helpers that build whole brushes for the map they are called on
+                    o = vmf.make_prism(Vec(0, 0, 0), Vec(8, 8, 8)).solid
+                    vmf.add_brush(o)
+                    kind = 'solid'
+                elif kind == 'hollow':
+                    rest = vmf.make_hollow(Vec(0, 0, 0), Vec(64, 64, 64))
+                    vmf.add_brushes(rest)
+                    o = rest.pop()
+                    for r_ in rest:
+                        objs.append(['solid', r_, True])
+                    r_ = rest = None
+                    kind = 'solid'
                 elif kind == 'brushent':
                     pr = vmf.make_prism(Vec(0, 0, 0), Vec(8, 8, 8))
                     o = Entity(vmf, {'classname': 'func_detail'}, ent_id=desired, solids=[pr.solid])
@@ -417,7 +461,7 @@ def run_history(hist: list[tuple], record_release=None):
                 from srctools import instancing
                 from srctools.math import Matrix
                 inst = instancing.Instance('inst', '', Vec(16 * ev[1], 0, 0), Matrix())
-                instancing.collapse_one(vmf2, inst, instancing.InstanceFile(vmf), visgroup=bool(ev[2]))
+                instancing.collapse_one(vmf2, inst, instancing.InstanceFile(vmf), visgroup=vmf2.vis_tree[0] if ev[2] == 2 else bool(ev[2]))
                 del inst
             elif op == 'remove':
                 k = ev[1] % len(objs) if objs else None
@@ -453,6 +497,7 @@ def run_history(hist: list[tuple], record_release=None):
         except Exception as e:   # an exception in the public API during a legal history is itself reported
             steps.append({'error': f'{type(e).__name__}: {e}'})
             break
+        gc_step()
         sc = scan_map(vmf)
         sc.update({'map2:' + k: v for k, v in scan_map(vmf2).items()})
         steps.append(sc)
@@ -461,16 +506,25 @@ def run_history(hist: list[tuple], record_release=None):
 
 def gen_history(rng: random.Random, n: int, kinds) -> list[tuple]:
     h = []
+    # parse-then-allocate: in a quarter of the histories the first map (sometimes the second one too) starts as a parsed
+    # document with small, colliding, missing IDs; the world block has id 1 in most of them, as Hammer writes it
+    if rng.random() < 0.25:
+        h.append(('parse', 0, gen_vmf_doc(rng, small=True)[0]))
+        if rng.random() < 0.3:
+            h.append(('parse', 1, gen_vmf_doc(rng, small=True)[0]))
+    n_parse = len(h)
     for _ in range(n):
         r = rng.random()
-        if r < 0.40 or not h:
+        if r < 0.40 and n_parse and rng.random() < 0.5:
+            h.append(('create', rng.choice(kinds), -1))     # a plain allocation right after the parse
+        elif r < 0.40 or not h:
             h.append(('create', rng.choice(kinds), rng.choice([-1, -1, 0, -4, 1, 2, 2, 3, 5])))
         elif r < 0.46:
             h.append(('copy', rng.randint(0, 9)))
         elif r < 0.50:
             h.append(('xcopy', rng.randint(0, 9)))
         elif r < 0.53:
-            h.append(('collapse', rng.randint(0, 3), rng.randint(0, 1)))
+            h.append(('collapse', rng.randint(0, 3), rng.randint(0, 2)))     # visgroup=False / True / a VisGroup of the destination
         elif r < 0.70:
             h.append(('remove', rng.randint(0, 9)))
         elif r < 0.80:
@@ -484,7 +538,11 @@ def gen_history(rng: random.Random, n: int, kinds) -> list[tuple]:
     return h
 
 
+HAMMER_DOC = ('versioninfo\n{\n"formatversion" "100"\n}\nworld\n{\n"id" "1"\n"classname" "worldspawn"\n}\n'
+              'entity\n{\n"id" "2"\n"classname" "info_target"\n}\n')
 CORPUS_HIST = [
+    [('parse', 0, HAMMER_DOC), ('create', 'ent', -1), ('copy', 0), ('create', 'brushent', -1)],
+    [('parse', 0, HAMMER_DOC), ('parse', 1, HAMMER_DOC), ('collapse', 0, 1), ('xcopy', 0), ('create', 'node', -1)],
     [('create', 'ent', -1), ('remove', 0), ('create', 'ent', -1), ('gc', 0), ('create', 'ent', -1)],
     [('create', 'solid', -1), ('remove', 0), ('create', 'solid', -1), ('gc', 0), ('create', 'solid', -1)],
     [('create', 'node', 3), ('create', 'node', 3), ('create', 'node', 3)],
@@ -507,6 +565,8 @@ def classify(kind: str, what: str, hist) -> str:
         if what == 'nonpositive':
             return 'node-id-nonpositive'
         return 'node-id-duplicate'
+    if 'parse' in ops:      # the map was built by VMF.parse: parse-then-allocate
+        return f'{kind}-id-{what}-after-parse'
     if 'remove' in ops and 'gc' in ops and kind in ('ent',):
         return f'{kind}-id-duplicate-after-remove-and-gc' if what == 'duplicate' else f'{kind}-id-{what}'
     if 'remove' in ops and kind in ('ent',) and what == 'duplicate':
@@ -525,6 +585,15 @@ def shrink(hist, pred):
                 cur = cand
                 changed = True
                 break
+        if changed:
+            continue
+        for i, e in enumerate(cur):     # a parsed starting map: try the smallest Hammer-like document instead
+            if e[0] == 'parse' and e[2] != HAMMER_DOC:
+                cand = cur[:i] + [(e[0], e[1], HAMMER_DOC)] + cur[i + 1:]
+                if pred(cand):
+                    cur = cand
+                    changed = True
+                    break
     return cur
 
 
@@ -548,7 +617,8 @@ def search_lifecycle(ck: Ck) -> None:
             hist = CORPUS_HIST[i]
         else:
             kinds = ck.rng.choice([['ent'], ['solid'], ['ent', 'brushent', 'solid'], ['node', 'ent'], ['group', 'vis', 'vischild', 'ent'],
-                                   ['ent', 'solid', 'brushent', 'node', 'group', 'vis', 'vischild']])
+                                   ['solid', 'prism', 'hollow', 'brushent'],
+                                   ['ent', 'solid', 'brushent', 'node', 'group', 'vis', 'vischild', 'prism']])
             hist = gen_history(ck.rng, ck.rng.choice([4, 8, 16, 30]), kinds)
         ck.count('lifecycle_histories')
         for e in hist:
@@ -567,7 +637,8 @@ def search_lifecycle(ck: Ck) -> None:
         small = shrink(hist, same)
         if key not in found or len(small) < len(found[key][0]):
             found[key] = (small, first_problem(small))
-    ck.sample({'lifecycle_history': CORPUS_HIST[4], 'id_scan_after_last_step': run_history(CORPUS_HIST[4])[0][-1]})
+    ck.sample({'lifecycle_history': CORPUS_HIST[6], 'id_scan_after_last_step': run_history(CORPUS_HIST[6])[0][-1]})
+    gc_end()
     for key, (hist, p) in found.items():
         ck.violation(key, f'{p[0]} IDs {p[1]}: {p[2]} after step {p[3]} of history', {'history': hist, 'problem': p,
                      'how': 'checks.c08.run_history(history) then scan_map() after every step'})
@@ -634,19 +705,18 @@ Definition obs (w : world) : list Z := flat_map (fun o => [oid o; if alive o the
 Definition probe (w : world) : Z := match get_id (-1) (man w) with Some (i, _) => i | None => -3 end.
 Definition lrun' := lrun {rr}.
 '''
-    bad = []
-    from harness.common import parse_coq_N_list
+    exprs = []
     for lo in range(0, len(cases), 400):
         part = cases[lo:lo + 400]
         lit = coq_list('(%s, %s)' % (coq_list(evs), coq_Z_list([x for (i, a, m) in exp for x in (i, int(a), int(m))] + [probe]))
                        for evs, exp, probe in part)
-        vals = ck.coq_eval(IMPORTS, [f'bad_idx (fun c : list ev * list Z => zl_eqb (obs (lrun\' (fst c)) ++ [probe (lrun\' (fst c))]) (snd c)) 0 {lit}'],
-                           name='life', preamble=pre)
-        if vals is None:
-            ck.obligation('correspondence:lifecycle', False, 'model could not be evaluated')
-            ck.tie_broken.append('correspondence entity lifecycle: model evaluation failed')
-            return
-        bad += [lo + i for i in parse_coq_N_list(vals[0])]
+        exprs.append(f'bad_idx (fun c : list ev * list Z => zl_eqb (obs (lrun\' (fst c)) ++ [probe (lrun\' (fst c))]) (snd c)) 0 {lit}')
+    res = yield ('life', pre, exprs, 4)
+    if res is None:
+        ck.obligation('correspondence:lifecycle', False, 'model could not be evaluated')
+        ck.tie_broken.append('correspondence entity lifecycle: model evaluation failed')
+        return
+    bad = [c * 400 + i for c, idxs in enumerate(res) for i in idxs]
     ck.obligation('correspondence:lifecycle', not bad,
                   f'{len(cases)} entity histories, model lrun(release_on_remove={rr}) vs real VMF/Entity/gc: {len(bad)} disagreements')
     if bad:
@@ -664,7 +734,7 @@ Definition wfull (k : kind) (es : list wev) : list Z :=
 Definition wobs3 (w : wworld) : list Z := wobs w ++ [wprobe w 0%nat; wprobe w 1%nat; wprobe w 2%nat].
 Definition tfull (es : list tev) : list Z * list Z * list Z :=
   let w := trun (release_on_remove KEnt) (release_on_remove KSolid) (release_on_remove KFace)
-                (copy_to_dest KEnt) (copy_to_dest KSolid) (copy_to_dest KFace) es in
+                (copy_to_dest KEnt) (copy_to_dest KSolid) (copy_to_dest KFace) parse_program es in
   let lists m := List.map Z.of_nat (tlisted_of w m false) ++ [-1] ++ List.map Z.of_nat (tlisted_of w m true) ++ [-2] in
   (wobs3 (tE w), wobs3 (tS w), wobs3 (tF w) ++ [-5] ++ lists 0%nat ++ lists 1%nat ++ lists 2%nat).
 '''
@@ -694,34 +764,225 @@ def _zs(d: int) -> str:
     return f'({d})' if d < 0 else str(d)
 
 
-def gen_world_case(rng: random.Random, n_ev: int):
+_PDOC_ENT_IDS = [None, None, 0, 1, 1, 2, 2, 3, 5]
+_PDOC_IDS = [None, -1, 0, 1, 1, 2, 2, 3, 4]
+
+
+def gen_parse_doc(rng: random.Random):
+    """A small VMF document for the nested model's TParse: (text, doc) with doc = {'world': desired ID of the world block,
+    'brushes': [(hidden, desired, [desired face IDs])], 'ents': [(hidden, desired, [(desired, [faces])])]}; a missing id is
+    desired -1.  The world block has id 1 in half of the documents (what Hammer writes); IDs are small and collide."""
+    def des(d):
+        return -1 if d is None else d
+
+    def idline(d):
+        return '' if d is None else f'"id" "{d}"\n'
+
+    def solid():
+        sd = rng.choice(_PDOC_IDS)
+        fds = [rng.choice(_PDOC_IDS) for _ in range(rng.choice([1, 2]))]
+        txt = 'solid\n{\n' + idline(sd) + ''.join('side\n{\n' + idline(fd) + '"plane" "(0 0 0) (1 0 0) (0 1 0)"\n"material" "A"\n}\n' for fd in fds) + '}\n'
+        return txt, (des(sd), [des(fd) for fd in fds])
+
+    wd = 1 if rng.random() < 0.5 else rng.choice(_PDOC_ENT_IDS)
+    doc = {'world': des(wd), 'brushes': [], 'ents': []}
+    world = 'world\n{\n' + idline(wd) + '"classname" "worldspawn"\n'
+    for _ in range(rng.choice([0, 1, 2])):
+        txt, sd = solid()
+        hidden = rng.random() < 0.25
+        world += 'hidden\n{\n' + txt + '}\n' if hidden else txt
+        doc['brushes'].append((hidden, sd[0], sd[1]))
+    out = ['versioninfo\n{\n"formatversion" "100"\n}\n', world + '}\n']
+    for _ in range(rng.choice([0, 1, 2, 3])):
+        ed = rng.choice(_PDOC_ENT_IDS)
+        txt = 'entity\n{\n' + idline(ed)
+        sds = []
+        if rng.random() < 0.4:
+            txt += '"classname" "func_detail"\n'
+            for _ in range(rng.choice([1, 2])):
+                t2, sd = solid()
+                txt += t2
+                sds.append(sd)
+        else:
+            txt += '"classname" "info_target"\n'
+        txt += '}\n'
+        hidden = rng.random() < 0.2
+        out.append('hidden\n{\n' + txt + '}\n' if hidden else txt)
+        doc['ents'].append((hidden, des(ed), sds))
+    return ''.join(out), doc
+
+
+def coq_pdoc(doc) -> str:
+    def b(x):
+        return 'true' if x else 'false'
+
+    def sd(d, fds):
+        return f'({_zs(d)}, {coq_list(_zs(x) for x in fds)})'
+    return ('{| pd_world := %s; pd_brushes := %s; pd_ents := %s |}' % (
+        _zs(doc['world']), coq_list(f'({b(h)}, {sd(d, fds)})' for h, d, fds in doc['brushes']),
+        coq_list(f'({b(h)}, ({_zs(d)}, {coq_list(sd(*x) for x in sds)}))' for h, d, sds in doc['ents'])))
+
+
+def observed_parse(text: str):
+    """VMF.parse with every Entity / Solid / Side constructed on the way recorded in construction order.  Entities are held
+    weakly, with their ID and with the indexes of the earlier entities whose destructor had run by then: the time at which
+    the placeholder worldspawn dies is part of what is compared."""
+    import weakref
+    import srctools.vmf as V
+    from srctools.keyvalues import Keyvalues
+    log: dict = {'ent': [], 'solid': [], 'face': []}
+    orig = {c: c.__init__ for c in (V.Entity, V.Solid, V.Side)}
+
+    def ent_init(self, *a, **k):
+        orig[V.Entity](self, *a, **k)
+        log['ent'].append((weakref.ref(self), self.id, [i for i, (r, _, _) in enumerate(log['ent']) if r() is None]))
+
+    def solid_init(self, *a, **k):
+        orig[V.Solid](self, *a, **k)
+        log['solid'].append(self)
+
+    def side_init(self, *a, **k):
+        orig[V.Side](self, *a, **k)
+        log['face'].append(self)
+    V.Entity.__init__, V.Solid.__init__, V.Side.__init__ = ent_init, solid_init, side_init
+    try:
+        vmf = V.VMF.parse(Keyvalues.parse(text))
+    finally:
+        for c, f in orig.items():
+            c.__init__ = f
+    gc_step()
+    return vmf, log
+
+
+def parse_mirror(prog: list[str], doc):
+    """The order in which the steps of VMF.parse (read from the source: side['parse_program']) construct and destroy objects,
+    as flat per-kind event lists for SM/IdWorld.v -- the bookkeeping the harness needs to know which Python object is which
+    object of the models.  -> [(step, ...)] with ('ent', desired, role) / ('solid', desired) / ('face', desired) / ('drop',)."""
+    out = []
+    for st in prog:
+        if st == 'GPPlaceholder':
+            out.append(('ent', -1, 'placeholder'))
+        elif st == 'GPWorld':
+            for h, d, fds in doc['brushes']:
+                out += [('face', fd) for fd in fds] + [('solid', d), ('top-brush', h, len(fds))]
+            out.append(('ent', doc['world'], 'world'))
+        elif st == 'GPDropPlaceholder':
+            out.append(('drop',))
+        elif st == 'GPEntities':
+            for h, d, sds in doc['ents']:
+                for sd, fds in sds:
+                    out += [('face', fd) for fd in fds] + [('solid', sd)]
+                out.append(('ent', d, 'entity', h, [len(fds) for _, fds in sds]))
+        elif st == 'GPReleasePlaceholder':
+            out.append(('release',))
+    return out
+
+
+def gen_world_case(rng: random.Random, n_ev: int, parse_prog: list[str] | None = None):
     """A random history over three real maps with point entities, brush entities and world brushes.
 
     Returns ({kind: [event strings]}, {kind: expected observation list}, description, per-map ID scans).  Every
     nested object gets its own events in the stream of its kind, in the order the implementation constructs them."""
     from srctools.vmf import VMF, Entity, Solid, Side, EntityGroup, VisGroup
     from srctools.math import Vec
-    maps = [VMF(), VMF(), VMF()]
+    maps: list = []
     ev: dict = {k: [] for k in WORLD_KINDS}
     tr: dict[str, list[_Tracked]] = {k: [] for k in WORLD_KINDS}
     face_dels: list[int] = []             # face IDs released by Side.__del__ (in whichever map)
     tev: list[str] = []                   # the same history as bundled events on top-level objects (SM/IdNest.v)
     nest_ok = True
     nest_flag: list[str] = []
-    for m, v in enumerate(maps):          # the constructor's worldspawn takes an entity ID in every map
-        ev['KEnt'].append(f'WCreate {m}%nat (-1)')
-        tev.append(f'TCreateSpawn {m}%nat')            # top-level objects 0..2 of the nested model
-        tr['KEnt'].append(_Tracked(v.spawn, m))
-
+    # top-level objects: kind, obj, ent index or None, [(solid index, [face indexes])], home, inmap.  The worldspawns (the
+    # constructor's, a parsed one, the placeholder a parse throws away) are top-level objects no event picks: obj = None.
+    tops: list[dict] = []
+    desc: list[tuple] = []
+    timing: list[tuple] = []              # per parsed map: (observed, expected) time of the placeholder's destructor
+    for m in range(3):
+        if parse_prog is None or rng.random() >= 0.4:
+            # the constructor's worldspawn takes an entity ID
+            v = VMF()
+            maps.append(v)
+            ev['KEnt'].append(f'WCreate {m}%nat (-1)')
+            tev.append(f'TCreateSpawn {m}%nat')
+            tr['KEnt'].append(_Tracked(v.spawn, m))
+            tops.append({'kind': 'spawn', 'obj': None, 'ent': len(tr['KEnt']) - 1, 'solids': [], 'home': m, 'inmap': False})
+            continue
+        # the map starts as a parsed document (round 4): the model's TParse runs the program read from VMF.parse
+        text, doc = gen_parse_doc(rng)
+        v, log = observed_parse(text)
+        maps.append(v)
+        desc.append(('parse', m, text))
+        tev.append(f'TParse {m}%nat {coq_pdoc(doc)}')
+        e0, s0, f0 = len(tr['KEnt']), len(tr['KSolid']), len(tr['KFace'])
+        n_e = n_s = n_f = 0
+        placeholder = None
+        roles = {}
+        for st in parse_mirror(parse_prog, doc):
+            if st[0] == 'ent':
+                ev['KEnt'].append(f'WCreate {m}%nat {_zs(st[1])}')
+                roles[st[2]] = n_e
+                if st[2] == 'placeholder':
+                    placeholder = e0 + n_e
+                    tops.append({'kind': 'spawn', 'obj': None, 'ent': e0 + n_e, 'solids': [], 'home': m, 'inmap': False})
+                elif st[2] == 'world':
+                    tops.append({'kind': 'spawn', 'obj': None, 'ent': e0 + n_e, 'solids': [], 'home': m, 'inmap': False})
+                else:
+                    parts, k_s, k_f = [], n_s - len(st[4]), n_f - sum(st[4])
+                    for nf in st[4]:
+                        parts.append((s0 + k_s, [f0 + k_f + j for j in range(nf)]))
+                        k_s, k_f = k_s + 1, k_f + nf
+                    tops.append({'kind': 'ent', 'obj': ('ent', n_e), 'ent': e0 + n_e, 'solids': parts, 'home': m, 'inmap': True})
+                n_e += 1
+            elif st[0] == 'solid':
+                ev['KSolid'].append(f'WCreate {m}%nat {_zs(st[1])}')
+                n_s += 1
+            elif st[0] == 'face':
+                ev['KFace'].append(f'WCreate {m}%nat {_zs(st[1])}')
+                n_f += 1
+            elif st[0] == 'top-brush':
+                tops.append({'kind': 'solid', 'obj': ('solid', n_s - 1), 'ent': None,
+                             'solids': [(s0 + n_s - 1, [f0 + n_f - st[2] + j for j in range(st[2])])], 'home': m, 'inmap': True})
+            elif st[0] == 'drop' and placeholder is not None:
+                ev['KEnt'].append(f'WDestroy {placeholder}%nat')
+        # which Python object is which: construction order, as observed
+        if len(log['ent']) != n_e or len(log['solid']) != n_s or len(log['face']) != n_f:
+            nest_flag.append(f'VMF.parse constructed {len(log["ent"])}/{len(log["solid"])}/{len(log["face"])} entities/brushes/faces, '
+                             f'the program read from the source says {n_e}/{n_s}/{n_f}')
+        for i, (ref, oid, dead) in enumerate(log['ent']):
+            o = ref()
+            if o is not None:
+                tr['KEnt'].append(_Tracked(o, m))
+            else:
+                t = _Tracked.__new__(_Tracked)
+                t.ref, t.id, t.alive, t.inmap, t.home, t.wr = None, oid, False, False, m, None
+                tr['KEnt'].append(t)
+        for o in log['solid']:
+            tr['KSolid'].append(_Tracked(o, m))
+        for o in log['face']:
+            tr['KFace'].append(_Tracked(o, m))
+        for t in tops:
+            if isinstance(t['obj'], tuple):
+                kind_, k_ = t['obj']
+                lst = log['ent'] if kind_ == 'ent' else log['solid']
+                t['obj'] = (lst[k_][0]() if kind_ == 'ent' else lst[k_]) if k_ < len(lst) else None
+        # the time of the placeholder's destructor, observed through weak references, against the program
+        if 'placeholder' in roles and 'world' in roles and len(log['ent']) == n_e:
+            p, wi = roles['placeholder'], roles['world']
+            first_ent = next((roles_i for roles_i in range(n_e) if roles_i not in (p, wi)), None)
+            obs = (p in log['ent'][wi][2], None if first_ent is None else p in log['ent'][first_ent][2], log['ent'][p][0]() is None)
+            prog = [x for x in parse_prog if x != 'GPReleasePlaceholder']
+            di = prog.index('GPDropPlaceholder') if 'GPDropPlaceholder' in prog else len(prog)
+            exp_t = (di < prog.index('GPWorld'), None if first_ent is None else di < prog.index('GPEntities'), 'GPDropPlaceholder' in prog)
+            timing.append((obs, exp_t, text))
+        del log
+        o = t = lst = ref = None        # no stray reference may keep a parsed object alive
+    for v in maps:
         def spy(e, orig=v.face_id.discard):
             import sys
             if sys._getframe(1).f_code.co_name == '__del__':
                 face_dels.append(e)
             return orig(e)
         v.face_id.discard = spy
-    # top-level objects: kind, obj, ent index or None, [(solid index, [face indexes])], home, inmap
-    tops: list[dict] = []
-    desc: list[tuple] = []
 
     def new_solid(m, d, fds):
         sides = []
@@ -864,28 +1125,49 @@ def gen_world_case(rng: random.Random, n_ev: int):
         from srctools import instancing
         from srctools.math import Matrix
         s, dest = rng.sample(range(3), 2)
-        keep_vis = rng.random() < 0.4       # visgroup=True: the visgroup trees of the instance map are copied as well
+        keep_vis = rng.random() < 0.45      # visgroup=True: the visgroup trees of the instance map are copied as well
+        # ... which is legal only while every visgroup ID the instance map's brushes and entities refer to is one of its listed
+        # visgroups (collapse_one looks each of them up); the histories unlist visgroups, so look first
+        refs: set = set()
+        for o in list(maps[s].brushes) + list(maps[s].entities) + [b for e in maps[s].entities for b in e.solids]:
+            refs |= set(o.visgroup_ids)
+        if not refs <= {v.id for v in _walk_vis(maps[s].vis_tree)}:
+            keep_vis = False
+        o = None
+        # visgroup=<VisGroup of the destination map>: the copied trees become children of that visgroup (and brushes / entities
+        # keep their visibility as with True)
+        parent = None
+        if keep_vis and rng.random() < 0.7:
+            cands = [t for t in gtops if t['kind'] == 'vis' and t['obj'] is not None and t['home'] == dest and t['inmap']]
+            parent = rng.choice(cands) if cands else None
         nb0, ne0, nv0 = len(maps[dest].brushes), len(maps[dest].entities), len(maps[dest].vis_tree)
+        nc0 = len(parent['obj'].child_groups) if parent else 0
         vsrcs = list(maps[s].vis_tree)
         inst = instancing.Instance('inst', '', Vec(16, 0, 0), Matrix())
-        instancing.collapse_one(maps[dest], inst, instancing.InstanceFile(maps[s]), visgroup=keep_vis)
+        instancing.collapse_one(maps[dest], inst, instancing.InstanceFile(maps[s]), visgroup=parent['obj'] if parent else keep_vis)
         new_b, new_e = maps[dest].brushes[nb0:], maps[dest].entities[ne0:]
         news = new_b + new_e
-        for vo, vc in zip(vsrcs, maps[dest].vis_tree[nv0:]):
+        new_v = parent['obj'].child_groups[nc0:] if parent else maps[dest].vis_tree[nv0:]
+        for vo, vc in zip(vsrcs, new_v):
             gt = next(t for t in gtops if t['obj'] is vo)
-            gtops.append({'kind': 'vis', 'obj': vc, 'tree': track_vis_copy(gt['tree'], vc, dest, -1), 'home': dest, 'inmap': True})
+            tree = track_vis_copy(gt['tree'], vc, dest, -1)
+            if parent:
+                parent['tree'][1].append(tree)      # from now on part of the parent's tree (copied / unlisted with it)
+            else:
+                gtops.append({'kind': 'vis', 'obj': vc, 'tree': tree, 'home': dest, 'inmap': True})
+        vo = vc = None
         # which source a new object was copied from is read from the tables collapse_one fills in (old ID -> new ID)
         back_b = {new: old for old, new in inst.brush_ids.items()}
         back_e = {new: old for old, new in inst.ent_ids.items()}
         srcs = [next((o for o in maps[s].brushes if o.id == back_b.get(c.id)), None) for c in new_b] + \
                [next((o for o in maps[s].entities if o.id == back_e.get(c.id)), None) for c in new_e]
         for so, c in zip(srcs, news):
-            t = next((t for t in tops if t['obj'] is so), None)
+            t = next((t for t in tops if t['obj'] is so), None) if so is not None else None
             if t is None:
                 nest_flag.append('collapse_one produced an object whose source is not a tracked top-level object')
                 continue
             tops.append(track_top_copy(t, c, dest, -1, True))
-        desc.append(('collapse', s, dest, len(news), len(srcs), keep_vis, len(maps[dest].vis_tree) - nv0))
+        desc.append(('collapse', s, dest, len(news), len(srcs), 'into-visgroup' if parent else keep_vis, len(new_v)))
         tev.append(f'TCollapse {s}%nat {dest}%nat {"true" if keep_vis else "false"}')
 
     def hide_event():
@@ -902,7 +1184,7 @@ def gen_world_case(rng: random.Random, n_ev: int):
             t['obj'].hidden = False
             t['obj'].vis_shown = True
         desc.append(('hide', tops.index(t), b))
-        tev.append(f'THide {tops.index(t) + 3}%nat {"true" if b else "false"}')
+        tev.append(f'THide {tops.index(t)}%nat {"true" if b else "false"}')
 
     for _ in range(n_ev):
         if rng.random() < 0.25:
@@ -961,7 +1243,7 @@ def gen_world_case(rng: random.Random, n_ev: int):
                 maps[dest].add_brush(c)
             tops.append(nt)
             desc.append(('copy', tops.index(t), dest, d, explicit))
-            tev.append(f'TCopy {tops.index(t) + 3}%nat {dest}%nat {_zs(d)} {"true" if explicit else "false"}')
+            tev.append(f'TCopy {tops.index(t)}%nat {dest}%nat {_zs(d)} {"true" if explicit else "false"}')
             c = csolids = cs = cf = None
         elif r < 0.68:
             t = rng.choice(live)
@@ -974,7 +1256,7 @@ def gen_world_case(rng: random.Random, n_ev: int):
                     ev[kind].append(f'WRemove {i}%nat')
                     tr[kind][i].inmap = False
             desc.append(('remove', tops.index(t)))
-            tev.append(f'TRemove {tops.index(t) + 3}%nat')
+            tev.append(f'TRemove {tops.index(t)}%nat')
         elif r < 0.80:
             t = rng.choice(live)
             if t['inmap']:
@@ -989,7 +1271,7 @@ def gen_world_case(rng: random.Random, n_ev: int):
                     ev[kind].append(f'WReAdd {i}%nat')
                     tr[kind][i].inmap = True
             desc.append(('readd', tops.index(t)))
-            tev.append(f'TReAdd {tops.index(t) + 3}%nat')
+            tev.append(f'TReAdd {tops.index(t)}%nat')
         else:
             t = rng.choice(live)
             if t['inmap']:
@@ -1015,7 +1297,7 @@ def gen_world_case(rng: random.Random, n_ev: int):
                         desc.append(('still-referenced', kind, i))
                         nest_ok = False         # a part outlived its owner: not an event of the nested model
             desc.append(('destroy', tops.index(t)))
-            tev.append(f'TDestroy {tops.index(t) + 3}%nat')
+            tev.append(f'TDestroy {tops.index(t)}%nat')
         t = None
     exp = {}
     scans = [scan_map(v) for v in maps]
@@ -1034,24 +1316,39 @@ def gen_world_case(rng: random.Random, n_ev: int):
     order: list[int] = []
     for v in maps:
         for lst, mark in ((v.brushes, -1), (v.entities, -2)):
-            order += [next((i + 3 for i, t in enumerate(tops) if t['obj'] is o), -7) for o in lst] + [mark]
+            order += [next((i for i, t in enumerate(tops) if t['obj'] is o), -7) for o in lst] + [mark]
     exp['T_order'] = order
+    exp['T_timing'] = timing
     return ev, exp, desc, scans
 
 
-def corr_world(ck: Ck) -> None:
+def corr_world(ck: Ck, parse_prog: list[str] | None = None) -> None:
     """SM/IdWorld.v against real histories over three maps (entities, brushes, faces; copy within and across maps)."""
     from harness.common import parse_coq_N_list
     n = ck.budget(120, 1500)
     cases = []
     nested = []
+    flagged: list = []
+    timing_bad: list = []
+    n_timing = 0
+    gc_begin()
     for i in range(n):
-        ev, exp, desc, scans = gen_world_case(ck.rng, ck.rng.choice([4, 8, 14, 22]))
+        ev, exp, desc, scans = gen_world_case(ck.rng, ck.rng.choice([4, 8, 14, 22]), parse_prog)
         ck.count('world_histories')
         for d in desc:
             ck.hist('world_events', d[0])
-        if any(d[0] == 'collapse' or (d[0] in ('copy', 'gcopy') and d[4]) for d in desc):
+            if d[0] == 'collapse':
+                ck.hist('world_collapse_visgroup', str(d[5]))
+        ck.hist('world_maps_parsed', sum(d[0] == 'parse' for d in desc))
+        if any(d[0] in ('collapse', 'parse') or (d[0] in ('copy', 'gcopy') and d[4]) for d in desc):
             ck.seen(('world', tuple(desc)))
+        if exp['T_flag']:
+            flagged.append((exp['T_flag'], desc))
+        for obs, exp_t, text in exp['T_timing']:
+            n_timing += 1
+            ck.hist('parse_placeholder_dead(at world, at first entity, after parse)', str(obs))
+            if obs != exp_t:
+                timing_bad.append({'observed': obs, 'program_says': exp_t, 'vmf_text': text})
         for m, sc in enumerate(scans):
             for kind, what, vals in dup_report(sc):
                 if kind == 'ent':       # scan_map leaves the worldspawn out on purpose; here only listed entities count
@@ -1061,9 +1358,18 @@ def corr_world(ck: Ck) -> None:
                               'how': 'events are in the notation of SM/IdWorld.v; replay by the same calls on three VMF() objects'})
         for kind in WORLD_KINDS:
             cases.append((kind, ev[kind], exp[kind], desc))
-        if ev['T'] is not None:
+        if ev['T'] is not None and not exp['T_flag']:
             nested.append((ev['T'], [exp[k] for k in ('KEnt', 'KSolid', 'KFace')] + [exp['T_order']], desc))
             ck.count('nested_histories')
+    gc_end()
+    if parse_prog is not None:
+        ck.obligation('correspondence:parse-destructor-time', not timing_bad,
+                      f'{n_timing} maps built by VMF.parse inside the three-map histories: the placeholder worldspawn is (not) destroyed when the world block / '
+                      'the first entity block is constructed and after parse returns, observed through weak references with a full gc.collect() at every '
+                      f'step boundary, vs the position of the re-binding of <map>.spawn in the program read from VMF.parse: {len(timing_bad)} disagreements')
+        if timing_bad:
+            ck.tie_broken.append('time of the placeholder worldspawn\'s destructor in VMF.parse (program read from the source vs CPython)')
+            ck.extra['parse_timing_disagreement'] = timing_bad[0]
     nk = len(WORLD_KINDS)
     ck.sample({'world_history': cases[-nk][3], 'events_per_kind': {c[0]: c[1] for c in cases[-nk:]},
                'impl(id,alive,inmap,home)*_then_next_ids': {c[0]: c[2] for c in cases[-nk:]}})
@@ -1079,7 +1385,7 @@ def corr_world(ck: Ck) -> None:
         lit = coq_list(f'({coq_list(t)}, (({coq_Z_list(e[0])}, {coq_Z_list(e[1])}), {coq_Z_list(e[2] + [-5] + e[3])}))' for t, e, _ in part)
         exprs.append('bad_idx (fun c : list tev * ((list Z * list Z) * list Z) => match tfull (fst c) with (a, b, f) => '
                      f'andb (andb (zl_eqb a (fst (fst (snd c)))) (zl_eqb b (snd (fst (snd c))))) (zl_eqb f (snd (snd c))) end) 0 {lit}')
-    res = eval_bad(ck, 'world', WORLD_PRE, exprs, per_call=6)
+    res = yield ('world', WORLD_PRE, exprs, 6)
     if res is None:
         ck.obligation('correspondence:world', False, 'model could not be evaluated')
         ck.obligation('correspondence:nested', False, 'model could not be evaluated')
@@ -1097,9 +1403,14 @@ def corr_world(ck: Ck) -> None:
     if nested:
         ck.sample({'nested_events': nested[-1][0], 'impl_per_kind(id,alive,inmap,home)*_then_next_ids': nested[-1][1]})
     bad = [c * 150 + i for c, idxs in enumerate(res[n_world:]) for i in idxs]
-    ck.obligation('correspondence:nested', not bad,
-                  f'{len(nested)} histories of bundled events on entities / brush entities / world brushes over three maps incl. the real collapse_one, '
-                  f'model trun (parts, order, desired IDs, the brush/entity lists of every map and the objects collapse_one copies decided by the model) vs the implementation: {len(bad)} disagreements')
+    ck.obligation('correspondence:nested', not bad and not flagged,
+                  f'{len(nested)} histories of bundled events on entities / brush entities / world brushes over three maps incl. VMF.parse as an event '
+                  '(the program read from the source run on the document) and the real collapse_one, '
+                  f'model trun (parts, order, desired IDs, the brush/entity lists of every map and the objects collapse_one copies decided by the model) vs the implementation: {len(bad)} disagreements'
+                  + (f', {len(flagged)} histories in which the implementation built objects the model does not know' if flagged else ''))
+    if flagged and not bad:
+        ck.tie_broken.append('correspondence nested objects: ' + flagged[0][0][0])
+        ck.extra['nested_disagreement'] = {'flag': flagged[0][0], 'history': flagged[0][1]}
     if bad:
         c = min((nested[i] for i in bad), key=lambda c: len(c[0]))
         ck.tie_broken.append('correspondence nested objects (SM/IdNest.v trun vs Entity/Solid/Side constructors, copy(), remove, __del__)')
@@ -1241,7 +1552,7 @@ def corr_nodes(ck: Ck) -> None:
     """Both node correspondences, evaluated by the same coqc processes."""
     ex1, fin1 = corr_node(ck)
     ex2, fin2 = corr_nodemaps(ck)
-    res = eval_bad(ck, 'node', NODE_PRE + NODEMAPS_PRE[len(PRE):], ex1 + ex2, per_call=6)
+    res = yield ('node', NODE_PRE + NODEMAPS_PRE[len(PRE):], ex1 + ex2, 6)
     fin1(None if res is None else res[:len(ex1)])
     fin2(None if res is None else res[len(ex1):])
 
@@ -1456,8 +1767,9 @@ Definition nlive (es : list nev) : list Z := nids (nents (nrun node_realloc_on_a
 _ID_POOL = [None, None, -1, 0, -2, 1, 1, 2, 2, 3, 4, 7]
 
 
-def gen_vmf_doc(rng: random.Random):
-    """VMF text whose IDs collide, are missing, zero or negative, plus the desired IDs per kind in construction order."""
+def gen_vmf_doc(rng: random.Random, small: bool = False):
+    """VMF text whose IDs collide, are missing, zero or negative, plus the desired IDs per kind in construction order.
+    `small`: fewer objects (the document is the start of a longer history)."""
     want = {'KEnt': [], 'KSolid': [], 'KFace': [], 'KGroup': [], 'KVis': [], 'node': []}
     out: list[str] = ['versioninfo\n{\n"formatversion" "100"\n}\n']
 
@@ -1490,7 +1802,7 @@ def gen_vmf_doc(rng: random.Random):
         return txt + '}\n'
 
     out.append('visgroups\n{\n' + ''.join(visgroup(0) for _ in range(rng.choice([0, 1, 3]))) + '}\n')
-    wd = pick()
+    wd = 1 if rng.random() < 0.5 else pick()        # Hammer always writes the world block with id 1
     world = 'world\n{\n' + idline('id', wd) + '"classname" "worldspawn"\n'
     for _ in range(rng.choice([0, 1, 3])):
         if rng.random() < 0.25:
@@ -1503,7 +1815,7 @@ def gen_vmf_doc(rng: random.Random):
         want['KGroup'].append(des(gd))
     out.append(world + '}\n')
     ents = []
-    for _ in range(rng.choice([0, 2, 4, 7])):
+    for _ in range(rng.choice([0, 1, 2] if small else [0, 2, 4, 7])):
         ed = pick()
         # Entity.parse reads the id only when it is numeric: '-1'/'-2' stay ordinary keyvalues
         txt = 'entity\n{\n' + idline('id', ed)
@@ -1524,20 +1836,24 @@ def gen_vmf_doc(rng: random.Random):
     return ''.join(out), want, (wd if wd is not None and wd >= 0 else -1)
 
 
-def corr_parse(ck: Ck) -> None:
+def corr_parse(ck: Ck, parse_prog: list[str] | None = None) -> None:
     """VMF.parse of documents with colliding / missing / non-positive IDs against the model's WParse, per kind."""
     from harness.common import parse_coq_N_list
     from srctools.vmf import VMF
     from srctools.keyvalues import Keyvalues
     n = ck.budget(150, 2000)
     cases = []
+    gc_begin()
     for i in range(n):
         text, want, wd = gen_vmf_doc(ck.rng)
         try:
-            vmf = VMF.parse(Keyvalues.parse(text))
+            vmf, plog = observed_parse(text)
         except Exception as e:
             ck.violation('parse-exception', f'VMF.parse raised {type(e).__name__}: {e}', {'vmf_text': text})
             continue
+        # the entities constructed before the worldspawn that still exist (a placeholder that was not destroyed)
+        kept = [oid for ref, oid, _ in plog['ent'] if ref() is not None and ref() is not vmf.spawn and all(ref() is not e for e in vmf.entities)]
+        del plog
         ck.count('parsed_documents')
         sc = scan_map(vmf)
         for kind, what, vals in dup_report(sc):
@@ -1557,10 +1873,12 @@ def corr_parse(ck: Ck) -> None:
         for k, ds in want.items():
             ck.hist('parse_desired', 'missing' if not ds else 'some')
         # the placeholder worldspawn of VMF() takes ID 1 and dies when the parsed one replaces it
-        evs = {
-            'KEnt': ['WCreate 0%nat (-1)', f'WParse 0%nat [{_zs(wd)}]', 'WDestroy 0%nat',
-                     f'WParse 0%nat {coq_Z_list(want["KEnt"])}'],
-        }
+        # ... in the order of the program read from VMF.parse (the placeholder is object 0 of the entity stream)
+        step_ev = {'GPPlaceholder': 'WCreate 0%nat (-1)', 'GPWorld': f'WParse 0%nat [{_zs(wd)}]', 'GPDropPlaceholder': 'WDestroy 0%nat',
+                   'GPEntities': f'WParse 0%nat {coq_Z_list(want["KEnt"])}'}
+        evs = {'KEnt': [step_ev[st] for st in (parse_prog or ['GPPlaceholder', 'GPWorld', 'GPDropPlaceholder', 'GPEntities']) if st in step_ev]}
+        if kept:
+            got['KEnt'] = kept + got['KEnt']    # the placeholder is never destroyed: it keeps its ID
         for k in ('KSolid', 'KFace', 'KGroup', 'KVis'):
             evs[k] = [f'WParse 0%nat {coq_Z_list(want[k])}']
         for k in evs:
@@ -1568,6 +1886,23 @@ def corr_parse(ck: Ck) -> None:
         nodes = [int(e['nodeid']) for e in vmf.entities if 'nodeid' in e]
         nev = ['NCreate ' + ('None' if d is None else f'(Some {_zs(d)})') for d in want['node']]
         cases.append(('node', nev, nodes, text))
+        # parse-then-allocate: every kind of object gets one more member after the parse (fresh IDs), then the scan again
+        from srctools.math import Vec
+        from srctools.vmf import EntityGroup, VisGroup
+        extra = [vmf.create_ent('info_null'), vmf.create_ent('info_node', nodeid='-1'), vmf.make_prism(Vec(0, 0, 0), Vec(8, 8, 8)).solid]
+        vmf.add_brush(extra[2])
+        vmf.add_ent(vmf.spawn.copy())
+        if vmf.entities:
+            vmf.add_ent(vmf.entities[0].copy())
+        vmf.vis_tree.append(VisGroup(vmf, 'new'))
+        g_new = EntityGroup(vmf)
+        vmf.groups[g_new.id] = g_new
+        gc_step()
+        for kind, what, vals in dup_report(scan_map(vmf)):
+            ck.violation(f'parse-then-allocate-{kind}-id-{what}', f'VMF.parse, then one new object of every kind: {kind} IDs {what}: {vals}',
+                         {'vmf_text': text, 'how': 'VMF.parse(text); create_ent x2, make_prism + add_brush, spawn.copy(), entities[0].copy(), VisGroup, EntityGroup; scan incl. the worldspawn'})
+        del extra, g_new
+    gc_end()
     ck.sample({'parsed_vmf_text': cases[-1][3][:600], 'desired_and_resulting_ids': {c[0]: (c[1], c[2]) for c in cases[-6:]}})
     bad = []
     wcases = [c for c in cases if c[0] != 'node']
@@ -1582,7 +1917,7 @@ def corr_parse(ck: Ck) -> None:
         part = ncases[lo:lo + 400]
         lit = coq_list(f'({coq_list(evs)}, {coq_Z_list(got)})' for _, evs, got, _ in part)
         exprs.append(f'bad_idx (fun c : list nev * list Z => zl_eqb (nlive (fst c)) (snd c)) 0 {lit}')
-    res = eval_bad(ck, 'parse', PARSE_PRE, exprs, per_call=6)
+    res = yield ('parse', PARSE_PRE, exprs, 6)
     if res is None:
         ck.obligation('correspondence:parse', False, 'model could not be evaluated')
         ck.tie_broken.append('correspondence VMF.parse: model evaluation failed')
@@ -1605,13 +1940,103 @@ def _post_vis(lst):
 
 
 # ------------------------------------------------------------------------------------------------ main
+class ImplHang(BaseException):      # not an Exception: the `except Exception` of a history runner must not swallow it
+    pass
+
+
+STAGE_LIMIT_S = int(__import__('os').environ.get('C08_STAGE_LIMIT_S', '420'))     # (the variable is for testing the guard only)
+# a stage takes 1-15 s (thorough: up to 80 s; with budgets escalated by a broken tie up to 80 s) on a loaded machine; a fault that
+# makes the implementation loop ends here.  Once one stage has hung, the others get a minute each (a failing input is known).
+_hung: list = []
+
+
+_pending: list = []
+_POOL: list = []
+
+
+def _pool():
+    if not _POOL:
+        from concurrent.futures import ThreadPoolExecutor
+        _POOL.append(ThreadPoolExecutor(max_workers=3))
+    return _POOL[0]
+
+
+def guarded(ck: Ck, stage: str, fn, *args, resume=None) -> None:
+    """Run one stage that calls into the implementation.  A fault can make the implementation raise where it never does, or
+    loop for ever (the ID scan of IDMan.get_id, the index search of EntityFixup.__setitem__): both are failing inputs of this
+    property's histories, reported as VIOLATION with the stage and seed as replay -- not as an internal error or a hung check.
+    An exception whose traceback never enters srctools is a defect of the check itself and is passed on."""
+    import signal
+    import traceback
+
+    def on_alarm(signum, frame):
+        raise ImplHang(f'stage {stage} did not finish within {STAGE_LIMIT_S} s')
+    old = signal.signal(signal.SIGALRM, on_alarm)
+    # repeating: an alarm that goes off inside a destructor is printed and ignored by CPython, the next one gets through
+    signal.setitimer(signal.ITIMER_REAL, min(STAGE_LIMIT_S, 60) if _hung else STAGE_LIMIT_S, 5)
+    import time
+    import inspect
+    t0 = time.time()
+    try:
+        if resume is not None:
+            # second phase of a correspondence: the values of its Coq evaluation are there
+            gen, fut = resume
+            try:
+                gen.send(fut.result())
+            except StopIteration:
+                pass
+        elif inspect.isgeneratorfunction(fn):
+            # first phase: generate the cases on the implementation (main thread, `ck.rng` in stage order); the vm_compute evaluation
+            # the stage asks for runs in a worker thread (a coqc process) while the next stages generate theirs
+            gen = fn(ck, *args)
+            try:
+                req = next(gen)
+                _pending.append((stage, gen, _pool().submit(eval_bad, ck, *req)))
+            except StopIteration:
+                pass
+        else:
+            fn(ck, *args)
+        d = ck.extra.setdefault('stage_seconds', {})
+        d[stage] = round(d.get(stage, 0) + time.time() - t0, 1)
+    except ImplHang as e:
+        signal.setitimer(signal.ITIMER_REAL, 0)
+        _hung.append(stage)
+        frames = traceback.extract_tb(e.__traceback__)
+        where = next((f'{f.filename.rsplit("/", 1)[-1]}:{f.lineno} {f.name}' for f in reversed(frames) if '/srctools/' in f.filename), None)
+        if where is None:
+            raise
+        ck.obligation(f'stage-completes:{stage}', False, str(e))
+        ck.violation(f'impl-hang-{stage}', f'{e}; the implementation was executing {where}',
+                     {'stage': stage, 'seed': ck.seed, 'tier': ck.tier, 'where': where, 'how': f'checks.c08 stage {stage} with this seed'})
+        ck.explain(f'stage-completes:{stage}')
+    except Exception as e:
+        signal.setitimer(signal.ITIMER_REAL, 0)
+        frames = traceback.extract_tb(e.__traceback__)
+        inside = [f for f in frames if '/srctools/' in f.filename]
+        if not inside:
+            raise
+        where = f'{inside[-1].filename.rsplit("/", 1)[-1]}:{inside[-1].lineno} {inside[-1].name}'
+        ck.obligation(f'stage-completes:{stage}', False, f'{type(e).__name__}: {e}')
+        ck.violation(f'impl-exception-{stage}', f'the implementation raised {type(e).__name__}: {e} at {where} during a legal history',
+                     {'stage': stage, 'seed': ck.seed, 'tier': ck.tier, 'where': where, 'traceback': traceback.format_exception(type(e), e, e.__traceback__)[-6:],
+                      'how': f'checks.c08 stage {stage} with this seed'})
+        ck.explain(f'stage-completes:{stage}')
+    finally:
+        signal.setitimer(signal.ITIMER_REAL, 0)
+        signal.signal(signal.SIGALRM, old)
+        try:
+            gc.unfreeze()
+        except Exception:
+            pass
+
+
 def run(ck: Ck) -> None:
     ck.rule = ('IDMan: random operation sequences over a small ID range (collisions frequent) from IDMan(existing), non-trivial = '
                'more than 3 distinct results (thorough: in addition every sequence of up to 4 operations over 12 operations from the empty manager); lifecycle: random histories of create/copy/cross-map copy/collapse_one/remove/re-add/gc/'
-               'node edits over 7 object kinds, non-trivial = contains create and remove; world: histories over three maps of point '
+               'node edits over 9 object kinds (incl. make_prism / make_hollow), a quarter of them starting from maps built by VMF.parse of small documents (world id 1 in most), full gc.collect() at every step boundary, the worldspawn counted among the entities, non-trivial = contains create and remove; world: histories over three maps of point '
                'entities, brush entities, world brushes, brush groups and visgroup trees (every object gets its events in the stream of '
                'its kind; the entity/brush/face part also runs as bundled events on top-level objects), non-trivial = '
-               'contains an explicit cross-map or same-map copy(<map>) or a collapse_one; node maps: histories of node entities over three maps '
+               'contains an explicit cross-map or same-map copy(<map>), a collapse_one (visgroup False / True / a VisGroup of the destination) or a map that starts as VMF.parse of a generated document (40 % of the maps; the event TParse runs the program read from VMF.parse); node maps: histories of node entities over three maps '
                'with cross-map copy, fixup_key reservations and the real collapse_one, non-trivial = contains a copy or collapse; node: histories of the nodeid keyvalue, non-trivial = '
                'at least two of set/delete/remove; parse: generated VMF documents whose ids are drawn from a small pool with '
                'missing/0/negative/colliding values, non-trivial = at least two kinds with different desired ids; fixups: random '
@@ -1620,12 +2045,22 @@ def run(ck: Ck) -> None:
                'argument of up to 2 values followed by every sequence of up to 2 operations, and of 3 values followed by at most one); '
                'distinct by full sequence / text')
     ck.trusted.append('hand-written models SM/IdMan.v, SM/IdLife.v, SM/IdFixupHist.v, SM/IdWorld.v, SM/IdNest.v, SM/IdNode.v, SM/IdNodeMaps.v (tied by differential correspondence on every run)')
+    ck.trusted.append('translate/c08_parse.py (which statements of VMF.parse touch entity / brush / face IDs; constructor calls spelled through a module attribute are not in the helper census)')
+    ck.assumptions.append('NullIDMan is used only for maps opened with preserve_ids=True (census obligation maps_get_idman_unless_preserve_ids); such maps are exempt')
     ck.assumptions.append('objects are added to the map they were constructed for (VMF.add_ent docstring); Entity._keys is only written through the mapping API')
     ok_t = ck.translate('IdSites_gen', c08_sites.translate)
     side = ck.extra.get('translated', {}).get('IdSites_gen', {})
     built = ok_t and ck.build(['Props/C08.vo'])
+    th = None
     if built:
-        ck.theorems('Props/C08.v')
+        # Print Assumptions of every statement of Props/C08.v takes a coqc process of its own (10-20 s on a loaded machine): it runs in
+        # a worker thread on a copy of `ck` with lists of its own, merged below at the position where the results belong.  The instance
+        # obligations stay in this thread: a failed one must escalate the budgets of the stages that follow.
+        import copy
+        ck_t = copy.copy(ck)
+        ck_t.obligations, ck_t.axioms, ck_t.tie_broken, ck_t.notes = [], {}, [], []
+        th_pos = len(ck.obligations)
+        th = _pool().submit(ck_t.theorems, 'Props/C08.v')
         res = ck.instance_obligations(IMPORTS, {
             'ent_released_only_by_destructor': 'negb (release_on_remove KEnt)',
             'solid_released_only_by_destructor': 'negb (release_on_remove KSolid)',
@@ -1646,16 +2081,42 @@ def run(ck: Ck) -> None:
             'node_id_not_released_on_remove': 'negb node_release_on_remove',
             'every_keyvalue_write_goes_through_node_registration': 'keys_writes_registered',
             'every_fixup_table_write_is_a_modelled_operation': 'fixup_writes_modelled',
+            'vmf_parse_releases_no_id_itself': 'parse_releases_nothing',
+            'helpers_build_every_part_in_the_one_map_they_are_given': 'andb (forallb snd helper_ctor_sites) (negb (Nat.eqb (length helper_ctor_sites) 0))',
+            'maps_get_idman_unless_preserve_ids': 'managers_are_idman_unless_preserve_ids',
             'no_unclassified_release_site': 'forallb (fun x : kind * site * String.string => match snd (fst x) with SOther => false | _ => true end) release_sites',
         })
-        corr_idman(ck)
-        corr_fixups(ck, bool(side.get('fixup_init_requires_positive')), bool(side.get('fixup_init_defers', True)))
+        prog = [r[0] for r in side.get('parse_program', [])] or None
+        failed = sorted(n for n, ok in res.items() if not ok)
+        if failed:      # a premise of the theorems does not hold on this tree: search with the large budgets from the first stage on
+            ck.tie_broken.append('instance obligations: ' + ', '.join(failed))
         ror = any(r[0] == 'KEnt' and r[1] != 'SDel' for r in side.get('releases', []))
-        corr_lifecycle(ck, ror)
-        corr_world(ck)
-        corr_nodes(ck)
-        corr_parse(ck)
-    search_lifecycle(ck)
+        stages = [('idman', corr_idman, ()), ('fixup', corr_fixups, (bool(side.get('fixup_init_requires_positive')), bool(side.get('fixup_init_defers', True)))),
+                  ('lifecycle', corr_lifecycle, (ror,)), ('world', corr_world, (prog,)), ('node', corr_nodes, ()), ('parse', corr_parse, (prog,))]
+        escalated_from_start = bool(ck.tie_broken)
+        for name, fn, args in stages:
+            guarded(ck, name, fn, *args)
+    guarded(ck, 'search', search_lifecycle)
+    if th is not None:
+        th.result()
+        ck.obligations[th_pos:th_pos] = ck_t.obligations
+        ck.axioms.update(ck_t.axioms)
+        ck.tie_broken += ck_t.tie_broken
+        ck.notes += ck_t.notes
+    for stage, gen, fut in _pending:
+        guarded(ck, stage, None, resume=(gen, fut))
+    del _pending[:]
+    if built and ck.tie_broken and not escalated_from_start and not _hung:
+        # a correspondence disagrees, and its verdict came after every stage had generated its cases with the small budgets (the Coq
+        # evaluations run in the background): once more, one stage after the other, with the large budgets a broken tie gets --
+        # that is where the failing input usually comes from.  The obligations of the second pass carry the larger samples.
+        ck.extra['second_pass'] = list(ck.tie_broken)
+        for name, fn, args in stages:
+            guarded(ck, name, fn, *args)
+            for stage, gen, fut in _pending:
+                guarded(ck, stage, None, resume=(gen, fut))
+            del _pending[:]
+        guarded(ck, 'search', search_lifecycle)
     # Failed obligations are explained when the search exhibits a concrete history of the corresponding class.
     keys = {v['key'] for v in ck.violations}
 
@@ -1691,8 +2152,19 @@ def run(ck: Ck) -> None:
     if has('idman-'):
         ck.explain('instance:idman_hint_lowered_only_by_positive_ids')
         ck.explain('correspondence:idman')
-    if has('parse-'):
+    if has('-id-duplicate'):
+        ck.explain('instance:maps_get_idman_unless_preserve_ids')
+    if has('xmap-') or has('solid-id-duplicate') or has('face-id-duplicate'):
+        ck.explain('instance:helpers_build_every_part_in_the_one_map_they_are_given')
+    if has('parse-') or has('-after-parse'):
         ck.explain('correspondence:parse')
+        ck.explain('correspondence:parse-destructor-time')
+        ck.explain('instance:vmf_parse_releases_no_id_itself')
+    # a release site the census could not classify is explained by a concrete duplicate of the kind it releases
+    names = {'KEnt': 'ent', 'KSolid': 'solid', 'KFace': 'face', 'KGroup': 'group', 'KVis': 'vis', 'KNode': 'node'}
+    other = {names.get(r[0], '?') for r in side.get('releases', []) if r[1] == 'SOther'}
+    if other and all(has(k + '-id-duplicate') for k in other):
+        ck.explain('instance:no_unclassified_release_site')
     if not ok_t and keys:
         # the translator failed closed on a shape it cannot classify, and the search exhibits a concrete duplicate / non-positive
         # ID on the same tree: the replay is the failing input of this alarm
